@@ -110,11 +110,16 @@ def load_known():
 # ---------------------------------------------------------------------------
 # Lean side
 # ---------------------------------------------------------------------------
+LOCK_WAIT = [0.0]   # seconds spent waiting for other builds in the same project (not part of the check's own cost)
+
+
 @contextlib.contextmanager
 def build_lock():
     os.makedirs(os.path.join(LEAN, '.lake'), exist_ok=True)
     f = open(os.path.join(LEAN, '.lake', 'verif-build.lock'), 'w')
+    t = time.time()
     fcntl.flock(f, fcntl.LOCK_EX)
+    LOCK_WAIT[0] += time.time() - t
     try:
         yield
     finally:
@@ -294,14 +299,14 @@ def finish(ctx, proof_ok, level='proof', checker_cmd='', trusted=None, rule=''):
                 printed_known.add(e['key'])
         else:
             real.append(f)
+    real_payloads = []
     if real:
         # one replay file per distinct key
         seen = set()
         for f in real:
             if f['key'] in seen: continue
             seen.add(f['key'])
-            path = write_replay(ctx.pid, dict(property=ctx.pid, kind='failing-input', key=f['key'], what=f['what'], replay=f['replay'], seed=ctx.seed, tier=ctx.tier))
-            violations.append((path, ''))
+            real_payloads.append(dict(property=ctx.pid, kind='failing-input', key=f['key'], what=f['what'], replay=f['replay'], seed=ctx.seed, tier=ctx.tier))
     broken = []
     if not proof_ok:
         bad = [n for n, ax in ctx.proof['theorems'].items() if ax is None or not set(ax) <= ALLOWED_AXIOMS]
@@ -312,9 +317,10 @@ def finish(ctx, proof_ok, level='proof', checker_cmd='', trusted=None, rule=''):
         path = write_replay(ctx.pid, dict(property=ctx.pid, kind='no-failing-input-found', broken=broken, seed=ctx.seed, tier=ctx.tier,
                                           note='a proof obligation or the model/implementation correspondence no longer checks; the failing-input search on the real code found no input violating the property'))
         violations.append((path, ' no-failing-input-found'))
-    elif broken and real:
-        # attach what broke to the first replay
-        pass
+    for pl in real_payloads:
+        if broken:
+            pl['also_broken'] = broken      # the proof obligations / correspondence that no longer check
+        violations.append((write_replay(ctx.pid, pl), ''))
     ev = dict(
         property_id=ctx.pid, tier=ctx.tier, seed=ctx.seed, level=level,
         coverage=dict(
@@ -331,10 +337,11 @@ def finish(ctx, proof_ok, level='proof', checker_cmd='', trusted=None, rule=''):
             histogram=ctx.hist,
             probe=dict(evaluations=ctx.probe_evals, failures=len(ctx.failures)),
             notes=ctx.notes,
+            build_lock_wait_s=round(LOCK_WAIT[0], 2),
             **{k: v for k, v in ctx.extra.items() if k != 'theorem_files'},
         ),
         assumptions=ctx.assumptions,
-        wall_s=round(ctx.elapsed(), 2),
+        wall_s=round(ctx.elapsed() - LOCK_WAIT[0], 2),
         violations=len(violations),
     )
     if ev['coverage']['discharged'] < 1:
@@ -361,6 +368,7 @@ def run_check(pid, mod, tier, seed, replay=None):
     try:
         if replay:
             payload = json.load(open(replay))
+            ctx.replay_path = replay
             if hasattr(mod, 'replay'):
                 return mod.replay(ctx, payload)
             # generic replay: re-run the direct probe and report whether the recorded key fails again
